@@ -292,6 +292,11 @@ def make_plan(seed: int, tier: str, index: int) -> dict[str, Any]:
                 op["abort"]["at"] *= 4
     plan: dict[str, Any] = {"property": PROP, "seed": seed, "sub_batch": sub, "corpus": corpus,
                             "clients": clients, "schedule": schedule, "knobs": knobs}
+    if p.random() < 0.5:
+        # the same text through the plainest access path (one in-memory read) must give what the
+        # run's own access path gives: the chart is a function of the text, not of the reader
+        ci0 = p.randrange(len(clients))
+        plan["cross"] = [ci0, p.randrange(len(clients[ci0]))]
     if index % FRESH_EVERY[tier] == 0:
         plan["fresh"] = {"op": [0, 0], "hashseed": p.randint(1, 2**31 - 1),
                          "flavour": p.choice(sorted(env.FLAVOURS))}
@@ -441,6 +446,22 @@ def execute(plan: dict[str, Any]) -> dict[str, Any]:
                     key = json.dumps(parseop.access_key(op))
                     if key not in refs:
                         refs[key] = runner.in_fork(_reference, op, data_of[op["text"]], timeout=120)
+        cr = plan.get("cross")
+        if cr and cr[0] < len(plan["clients"]) and cr[1] < len(plan["clients"][cr[0]]):
+            op = plan["clients"][cr[0]][cr[1]]
+            c = corpus[op["text"]]
+            plain = {"op": "parse", "text": op["text"], "via": "file", "reader": "stringio",
+                     "newline": "\n", "select": op.get("select"),
+                     **({"encoding": "utf-8-sig"} if c.get("bom") else {})}
+            if parseop.access_key(plain) != parseop.access_key(op):
+                pref = runner.in_fork(_reference, plain, data_of[op["text"]], timeout=120)
+                mine = refs[json.dumps(parseop.access_key(op))]
+                probes["cross_access_references"] = 1
+                if pref != mine:
+                    vio("access-path-differs",
+                        f"text {op['text']} ({c['kind']}): read via {parseop.access_key(op)[2:]} a "
+                        f"fresh-process parse gives {_short(mine)} but via one in-memory read it gives "
+                        f"{_short(pref)}")
         fr = plan.get("fresh")
         if fr:
             ci, k = fr["op"]
